@@ -49,7 +49,7 @@ def grid(ctx):
                     reqs.append(("D", m, exp))
                     meta.append(("D", m, t, name, v, exp))
                     for it in ref.leaves(m, v):
-                        if it.path[0] in (2, 3, 4, 5, 6, 7, 8, 9, 10):
+                        if it.path[0] in (2, 3, 4, 5, 6, 7, 8, 9, 10, 12):
                             res.observe("grid_cells", f"{t.text()}@{it.offset % 8}:{probes.position_of(it.path)}")
             res.case(True, "grid", offset, chunk)
             for config in (["gcc-O0-BE" if (offset + chunk) % 2 else "gcc-asan-BE"] if ctx.quick else ["gcc-O0-BE", "gcc-O2-BE", "clang-O2-BE", "gcc-asan-BE"]):
